@@ -129,6 +129,17 @@ _CurlyTwin.__name__ = 'Curly'
 _CurlyTwin.__qualname__ = 'Curly'
 
 
+class ReenterSpan(SpanToken):
+    """Benign span token that parses its own inner content by calling span_token.tokenize_inner from its constructor, i.e.
+    it RE-ENTERS the inline tokenizer while the outer tokenize() call is still running."""
+    pattern = re.compile(r'\(\((.+?)\)\)')
+    parse_inner = False
+    precedence = 6
+
+    def __init__(self, match):
+        self.children = span_token.tokenize_inner(match.group(1))
+
+
 class Bang(BlockToken):
     """Benign block token: a line starting with '!!! '."""
     def __init__(self, lines):
@@ -317,13 +328,13 @@ def unregister(name):
 
 
 TOKENS = {
-    'CalloutHeading': CalloutHeading, 'DashStrike': DashStrike, 'CurlyTwin': _CurlyTwin, 'Curly': Curly, 'CurlyRaw': CurlyRaw, 'CurlyLow': CurlyLow, 'Bang': Bang, 'BangInterrupt': BangInterrupt,
+    'ReenterSpan': ReenterSpan, 'CalloutHeading': CalloutHeading, 'DashStrike': DashStrike, 'CurlyTwin': _CurlyTwin, 'Curly': Curly, 'CurlyRaw': CurlyRaw, 'CurlyLow': CurlyLow, 'Bang': Bang, 'BangInterrupt': BangInterrupt,
     'FaultBlockStart': FaultBlockStart, 'FaultBlockRead': FaultBlockRead, 'FaultBlockInit': FaultBlockInit,
     'FaultBlockInterrupt': FaultBlockInterrupt, 'FaultSpanFind': FaultSpanFind, 'FaultSpanInit': FaultSpanInit,
     'FaultBlockReadAbort': FaultBlockReadAbort, 'FaultSpanInitAbort': FaultSpanInitAbort,
     'RenderFaultSpan': RenderFaultSpan, 'RenderFaultBlock': RenderFaultBlock, 'RenderAbortSpan': RenderAbortSpan,
 }
-BENIGN_SPAN = ['Curly', 'CurlyRaw', 'CurlyLow', 'CurlyTwin', 'DashStrike']
+BENIGN_SPAN = ['Curly', 'CurlyRaw', 'CurlyLow', 'CurlyTwin', 'DashStrike', 'ReenterSpan']
 BENIGN_BLOCK = ['Bang', 'BangInterrupt', 'CalloutHeading']
 FAULT_BLOCK = ['FaultBlockStart', 'FaultBlockRead', 'FaultBlockInit', 'FaultBlockInterrupt', 'FaultBlockReadAbort']
 FAULT_SPAN = ['FaultSpanFind', 'FaultSpanInit', 'FaultSpanInitAbort']
